@@ -108,7 +108,7 @@ func canonMailbox(s string) string {
 	return s
 }
 
-var zones = []*time.Location{time.UTC, time.FixedZone("", 5*3600+1800), time.FixedZone("", -8*3600), time.FixedZone("", 13*3600)}
+var zones = []*time.Location{time.UTC, time.FixedZone("", 5*3600+1800), time.FixedZone("", -8*3600), time.FixedZone("", 13*3600), time.FixedZone("PDT", -7*3600), time.FixedZone("CEST", 2*3600), time.FixedZone("XYZ", -3*3600-1800)}
 
 func genTime(t *rapid.T, label string) time.Time {
 	loc := rapid.SampledFrom(zones).Draw(t, label+".zone")
